@@ -21,9 +21,14 @@ def regex_delimiter(ncols):
     return "regex:^" + r" \| ".join(["(.*?)"] * ncols) + "$"
 
 
+def regex_delimiter_opt(ncols):
+    """Like regex_delimiter, but the last column is an optional group (absent on short lines)."""
+    return "regex:^" + r" \| ".join(["(.*?)"] * (ncols - 1)) + r"(?: \| (.*))?$"
+
+
 def representable(cells, delimiter_kind):
     """Can this row of cells be written under the delimiter kind without ambiguity?"""
-    if delimiter_kind == "regex":
+    if delimiter_kind.startswith("regex"):
         # the line is stripped before matching, so a blank first/last cell cannot be told from a missing one
         if not cells or not cells[0].strip() or not cells[-1].strip():
             return False
@@ -34,7 +39,7 @@ def representable(cells, delimiter_kind):
 def render_line(cells, delimiter_kind):
     if cells is None:              # a blank line
         return ""
-    if delimiter_kind == "regex":
+    if delimiter_kind.startswith("regex"):
         return REGEX_SEP.join(cells)
     d = {"comma": ",", "semicolon": ";", "tab": "\t"}[delimiter_kind]
     return d.join(quote_cell(c, d) for c in cells)
